@@ -11,6 +11,7 @@ import Gsp.Model.Codec
 import Gsp.Model.HasherCfg
 import Gsp.Model.Claim
 import Gsp.Model.Verify
+import Gsp.Model.Loader
 /-! Line-protocol driver: one JSON case per line on stdin, one `{"id","out"}` per line on stdout. Core-only. -/
 open Lean Gsp
 
@@ -404,6 +405,67 @@ def opVerifyHttp (inp : Json) : Except String Json := do
   let parses ← (← inp.getObjVal? "parses").getBool?
   pure (if Verify.httpStatus code len parses then okJ (Json.str "answer") else errJ "no-answer")
 
+
+/-! ### loader -/
+def trimRightSlash (s : String) : String := String.ofList (s.toList.reverse.dropWhile (· == '/')).reverse
+def trimLeftSlash (s : String) : String := String.ofList (s.toList.dropWhile (· == '/'))
+
+def loaderCfgOf (j : Json) : Except String (Loader.Cfg × Option String) := do
+  let cacheOn ← (← j.getObjVal? "cacheOn").getBool?
+  let emb ← match j.getObjVal? "embedded" with
+    | .ok (.obj kvs) => kvs.toList.mapM fun (k, v) => do pure (k, ← v.getNat?)
+    | _ => pure []
+  let cli ← (← j.getObjVal? "ipfsClient").getBool?
+  let gw := (jopt j "ipfsGateway").bind fun g => g.getStr?.toOption
+  pure (⟨cacheOn, emb, cli, gw.isSome && gw != some ""⟩, gw)
+
+def schemeOf (u : String) : Loader.Scheme :=
+  if u.startsWith "http://" || u.startsWith "https://" then .http
+  else if u.startsWith "ipfs://" then .ipfs else .other
+
+def loaderOpOf (gw : Option String) (cli : Bool) (j : Json) : Except String Loader.Op := do
+  let o ← jstr j "o"
+  match o with
+  | "serve" =>
+    pure (.serve (← jstr j "u") (← (← j.getObjVal? "v").getNat?) ⟨← (← j.getObjVal? "storable").getBool?, ← (← j.getObjVal? "lifetime").getInt?⟩)
+  | "fail" => pure (.fail (← jstr j "u"))
+  | "tick" => pure (.tick (← (← j.getObjVal? "n").getNat?))
+  | _ =>
+    let u ← jstr j "u"
+    let sc := schemeOf u
+    let path := (u.drop 7).toString
+    let gurl := trimRightSlash (gw.getD "") ++ "/ipfs/" ++ trimLeftSlash path
+    -- the IPFS node client is addressed by the path; its "origin" entries live under ipfs-node:<path>
+    pure (.load sc (if sc == .ipfs && cli then "ipfs-node:" ++ path else u) gurl)
+
+def opLoaderRun (inp : Json) : Except String Json := do
+  let (cfg, gw) ← loaderCfgOf (← inp.getObjVal? "cfg")
+  let ops ← (← (← inp.getObjVal? "ops").getArr?).toList.mapM (loaderOpOf gw cfg.ipfsClient)
+  -- run step by step to report the number of requests of each load
+  let rec go : Loader.St → List Loader.Op → List Json → List Json
+    | _, [], acc => acc.reverse
+    | s, op :: rest, acc =>
+      let (s', r) := Loader.step cfg s op
+      let req := Json.num (s'.requests - s.requests)
+      match r with
+      | .none_ => go s' rest acc
+      | .doc v => go s' rest (Json.mkObj [("ok", Json.num v), ("req", req)] :: acc)
+      | .err => go s' rest (Json.mkObj [("err", "err"), ("req", req)] :: acc)
+  pure (Json.arr (go {} ops []).toArray)
+
+/-- C20: what a sequential execution returns for each URL against a constant origin -/
+def opLoaderExpected (inp : Json) : Except String Json := do
+  let (cfg, _) ← loaderCfgOf (← inp.getObjVal? "cfg")
+  let org ← match inp.getObjVal? "origin" with
+    | .ok (.obj kvs) => kvs.toList.mapM fun (k, v) => do pure (k, ← v.getNat?)
+    | _ => pure []
+  let urls ← (← (← inp.getObjVal? "urls").getArr?).toList.mapM (·.getStr?)
+  let exp (u : String) : Json :=
+    match Loader.expected cfg (fun x => (org.lookup x).map fun v => (v, ⟨true, 0⟩)) u with
+    | .doc v => okJ (Json.num v)
+    | _ => errJ "err"
+  pure (Json.mkObj (urls.map fun u => (u, exp u)))
+
 def handle (k : Pos.Consts) (op : String) (inp : Json) : Except String Json :=
   match op with
   | "pre.hash" => opPreHash k inp
@@ -421,6 +483,8 @@ def handle (k : Pos.Consts) (op : String) (inp : Json) : Except String Json :=
   | "verify.smtp" => opVerifySmt k inp
   | "verify.status" => opVerifyStatus k inp
   | "verify.http" => opVerifyHttp inp
+  | "loader.run" => opLoaderRun inp
+  | "loader.expected" => opLoaderExpected inp
   | _ => throw s!"unknown op {op}"
 
 def step (k : Pos.Consts) (line : String) : String :=
